@@ -15,6 +15,9 @@
 //               5 user getEvent(first, payload) that ignores its first argument (key from the payload); calls pass a DECOY key first
 //   W_MAP       0 default | 1 std::map | 2 std::unordered_map (needs hash) | 3 user map template
 //   W_FILTER    0 none | 1 MixinFilter
+//   W_MIXINS    (with W_FILTER 1) 0 MixinList<MixinFilter> | 1 <Plain, MixinFilter> | 2 <MixinFilter, Veto> | 3 <Veto, MixinFilter>
+//               4 <Plain, MixinFilter, Plain, Veto>     Plain: a mixin without a before-dispatch hook; Veto: a second hook that records what
+//               it sees and stops the dispatch when the argument value is 1
 //   W_ORDER     0 std::list | 1 OrderedQueueList ascending by key | 2 descending by key | 3 ascending by argument value
 //   W_CALLBACK  0 std::function | 1 tracked functor type as Policies::Callback
 //   W_FILL      byte pattern of the storage before construction
@@ -53,6 +56,9 @@
 #endif
 #ifndef W_MAP
 #define W_MAP 0
+#endif
+#ifndef W_MIXINS
+#define W_MIXINS 0
 #endif
 #ifndef W_FILTER
 #define W_FILTER 0
@@ -186,6 +192,15 @@ template <typename K, typename V> using UserMap = std::map<K, V, std::less<K> >;
 struct ByArgCompare { template <typename T> bool operator() (const T & a, const T & b) const { copyFaultPoint(); return std::get<std::tuple_size<decltype(a.arguments)>::value - 1>(a.arguments).v < std::get<std::tuple_size<decltype(b.arguments)>::value - 1>(b.arguments).v; } };
 struct DescCompare { template <typename T> bool operator() (const T & a, const T & b) const { return b.event < a.event; } };
 
+// ---- user mixins (C12: one or several mixins)
+static void onVeto(const Payload & p, bool stop);
+template <typename Base> struct PlainMixin : public Base { int plainMixinMarker() const { return 1; } };
+template <typename Last> static const Last & lastArg(const Last & x) { return x; }
+template <typename First, typename ...Rest> static auto lastArg(const First &, const Rest & ...rest) -> decltype(lastArg(rest...)) { return lastArg(rest...); }
+template <typename Base> struct VetoMixin : public Base
+{
+	template <typename ...A> bool mixinBeforeDispatch(A && ...a) const { const Payload & p = lastArg(a...); const bool stop = p.v == 1; onVeto(p, stop); return ! stop; }
+};
 struct Pol
 {
 #if W_THREADING == 0
@@ -219,7 +234,17 @@ struct Pol
 	template <typename K, typename V> using Map = UserMap<K, V>;
 #endif
 #if W_FILTER == 1
+#if W_MIXINS == 0
 	using Mixins = eventpp::MixinList<eventpp::MixinFilter>;
+#elif W_MIXINS == 1
+	using Mixins = eventpp::MixinList<PlainMixin, eventpp::MixinFilter>;
+#elif W_MIXINS == 2
+	using Mixins = eventpp::MixinList<eventpp::MixinFilter, VetoMixin>;
+#elif W_MIXINS == 3
+	using Mixins = eventpp::MixinList<VetoMixin, eventpp::MixinFilter>;
+#else
+	using Mixins = eventpp::MixinList<PlainMixin, eventpp::MixinFilter, PlainMixin, VetoMixin>;
+#endif
 #endif
 #if W_CANCONT == 1
 	static bool canContinueInvoking(const Payload & p) { return p.v != 2; }
@@ -307,6 +332,7 @@ static void evx(const char * e, int o, int a, int b, int r, int u)
 	std::fprintf(g_out, "{\"e\":\"%s\",\"o\":%d,\"a\":%d,\"b\":%d,\"r\":%d,\"u\":%d,\"lv\":%ld,\"pv\":%ld}\n", e, o, a, b, r, u, g_live, g_livePayload);
 }
 static Handle handleOf(int h) { return (h >= 1 && h <= (int)H.size()) ? H[h - 1] : Handle(); }
+static void onVeto(const Payload & p, bool stop) { regUse(&p); evx("mv", 0, 0, p.v, stop ? 1 : 0, p.uid); }
 static int numberOf(const Handle & h)
 {
 	auto p = h.lock();
